@@ -174,6 +174,11 @@ func Modify(node Node, f func(Node) (Node, bool)) (Node, bool) { //nolint:funlen
 		return f(newNode)
 	case *CallExpression:
 		newNode := *node
+		// the called expression can itself contain calls (e.g a macro call returning a function: mk(1)(2)).
+		newNode.Function, cont = Modify(node.Function, f)
+		if !cont {
+			return nil, false
+		}
 		newNode.Arguments = make([]Node, len(node.Arguments))
 		for i := range node.Arguments {
 			newNode.Arguments[i], cont = Modify(node.Arguments[i], f)
